@@ -599,10 +599,114 @@ def char_shortcut(ctx):
                               {"compiled": compiled, "bytes": b.hex(), "constructed": repr(a), "parsed": repr(p)})
 
 
+def ragged_ends_and_rebound_names(ctx, rng):
+    """(a) Inputs that end inside the trailing padding of an aligned structure -- alone, as the last entry of an `[EOF]`
+    array, as the last element of a counted array: whether such an input gives a value or an error is left open, but
+    it is the same answer for every kind of input object and every call form, at offset 0 and at an aligned offset.
+    (b) `cs.read(name, x)` looks the name up when it is called: after an alias (or the target of an alias of an alias)
+    was re-bound, it reads what `cs.<name>(x)` reads."""
+    import os
+    import tempfile
+
+    text = ("struct E { uint32 a; uint8 b; };\nstruct A { uint16 n; E items[EOF]; };\nstruct C { uint8 n; E items[n]; };\n"
+            "struct W { uint64 q; uint16 w; E e; };")
+    tmpdir = tempfile.mkdtemp(prefix="vf-C09-")
+    try:
+        for compiled in (True, False):
+            for endian in "<>":
+                cs = lib.load(text, endian, True, compiled)
+                for name, full in (("E", 8), ("A", 4 + 3 * 8), ("C", 4 + 2 * 8), ("W", 24)):
+                    T = getattr(cs, name)
+                    data = bytearray(rng.randrange(1, 256) for _ in range(full))
+                    if name == "C":
+                        data[0] = 2
+                    data = bytes(data)
+                    for missing in (1, 2, 3):
+                        for p0 in (0, 16):
+                            body = data[:full - missing]
+                            blob = bytes(rng.randrange(256) for _ in range(p0)) + body
+                            path = os.path.join(tmpdir, "in.bin")
+                            with open(path, "wb") as fh:
+                                fh.write(blob)
+
+                            def at(stream):
+                                stream.seek(p0)
+                                return stream
+
+                            kinds = {"bytes": lambda: T(body), "bytearray": lambda: T(bytearray(body)), "memoryview": lambda: T(memoryview(body)),
+                                     "BytesIO": lambda: T(at(io.BytesIO(blob))), "T.read(BytesIO)": lambda: T.read(at(io.BytesIO(blob))),
+                                     "cs.read(BytesIO)": lambda: cs.read(name, at(io.BytesIO(blob))), "T.reads": lambda: T.reads(body),
+                                     "recording": lambda: T(RecordingStream(blob, p0)), "reader-object": lambda: T(at(_Reader(blob))),
+                                     "file": lambda: _with(open(path, "rb"), lambda f: T(at(f))),
+                                     "file-unbuffered": lambda: _with(open(path, "rb", buffering=0), lambda f: T(at(f)))}
+                            # (a memory-mapped file is left out here: it refuses to be positioned beyond its end, which
+                            # skipping the missing padding asks for -- the stream's answer, not the library's)
+                            res = {}
+                            for k, fn in kinds.items():
+                                if fn is None:
+                                    continue
+                                try:
+                                    res[k] = ("ok", lib.stable_repr(fn()))
+                                except Exception as e:  # noqa: BLE001
+                                    res[k] = ("err",)
+                            ctx.evaluation(("ragged-end", compiled, endian, name, missing, p0))
+                            ctx.cell("input-ends-inside-trailing-padding")
+                            if len(set(res.values())) != 1:
+                                ctx.violation("forms", "input-kinds-disagree-on-an-input-that-lacks-trailing-padding",
+                                              {"text": text, "type": name, "compiled": compiled, "endian": endian, "missing": missing, "offset": p0,
+                                               "data": body.hex(), "outcomes": {k: v[0] for k, v in res.items()}, "workload": "ragged-ends"})
+                            else:
+                                ctx.event("ragged_ends_checked:" + next(iter(res.values()))[0])
+    finally:
+        import shutil
+
+        shutil.rmtree(tmpdir, ignore_errors=True)
+    # (b)
+    for compiled in (True, False):
+        cs = lib.cstruct()
+        cs.load("typedef long mylong_t;\ntypedef mylong_t off_t;\nstruct rec { off_t pos; uint8 t; };", compiled=compiled)
+        cs.add_type("inner", "int16")
+        cs.add_type("outer", "inner")
+        data = bytes(range(1, 17))
+        ctx.evaluation(("rebound-names", compiled))
+        ctx.cell("names-read-after-rebinding")
+        hist = []
+        try:
+            for step, (nm, target) in enumerate([(None, None), ("inner", "int64"), ("inner", "uint8"), ("mylong_t", "int16"), ("mylong_t", "uint64")]):
+                if nm:
+                    cs.add_type(nm, target, replace=True)
+                for name in ("outer", "inner", "off_t", "mylong_t"):
+                    s1, s2 = io.BytesIO(data), io.BytesIO(data)
+                    a = cs.read(name, s1)
+                    b = getattr(cs, name)(s2)
+                    c_ = cs.resolve(name)(data)
+                    d_ = cs.read(name, data)
+                    hist.append((step, name, int(a), s1.tell()))
+                    if not (int(a) == int(b) == int(c_) == int(d_)) or s1.tell() != s2.tell() or s1.tell() != len(getattr(cs, name)):
+                        ctx.violation("forms", "cs.read(name)-differs-from-the-other-call-forms-after-rebinding",
+                                      {"history": hist[-6:], "got": [int(a), int(b), int(c_), int(d_)], "tells": [s1.tell(), s2.tell()],
+                                       "compiled": compiled, "workload": "ragged-ends"})
+                        raise StopIteration
+            ctx.event("rebound_names_checked")
+        except StopIteration:
+            pass
+        except Exception as e:  # noqa: BLE001
+            ctx.violation("forms", f"rebinding-workload-raises:{type(e).__name__}", {"history": hist[-6:], "error": lib.exc_sig(e), "workload": "ragged-ends"})
+
+
+def _with(res, fn):
+    try:
+        return fn(res)
+    finally:
+        res.close()
+
+
 def run(ctx):
     if ctx.shard == 0:
         char_shortcut(ctx)
         text_streams(ctx)
+    if ctx.shard == 4:
+        ragged_ends_and_rebound_names(ctx, ctx.rng("ragged-ends"))
     if ctx.shard % 4 == 2:
         direct_types(ctx, ctx.rng("direct"), 2 if not ctx.thorough else 25)
     if ctx.shard % 4 == 3:
@@ -639,7 +743,9 @@ def replay(ctx, detail):
 
         char_shortcut(ctx)
         text_streams(ctx)
-        if detail.get("workload") == "pointer-tables":
+        if detail.get("workload") == "ragged-ends":
+            ragged_ends_and_rebound_names(ctx, ctx.rng("ragged-ends"))
+        elif detail.get("workload") == "pointer-tables":
             pointer_tables(ctx, ctx.rng("pointer-tables"), 6)
         elif "stream" in detail or "buffer" in detail:
             direct_types(ctx, _r.Random(0), 1)
